@@ -496,8 +496,22 @@ pub fn run(tier: &Tier) -> i32 {
     ensure_bin();
     let mut cases = Vec::new();
     let mut groups: Vec<(&str, usize)> = Vec::new();
-    let mut add = |name: &'static str, v: Vec<Case>, cases: &mut Vec<Case>, groups: &mut Vec<(&str, usize)>| {
+    let mut add = |name: &'static str, mut v: Vec<Case>, cases: &mut Vec<Case>, groups: &mut Vec<(&str, usize)>| {
         groups.push((name, v.len()));
+        // every other program of a group runs its service with the interrupt, direction and carry flags set
+        // (a service must leave the flag word alone whatever it holds); the unsupported-AH programs keep their
+        // first-line placement
+        if name != "unsupported_ah" {
+            for (k, cs) in v.iter_mut().enumerate() {
+                if k % 2 == 1 {
+                    let at = cs.prog.code.iter().position(|i| matches!(i, Item::Label(l) if l == "start")).map(|p| p + 1).unwrap_or(0);
+                    cs.prog.code.insert(at, z(ZeroOp::Stc));
+                    cs.prog.code.insert(at, z(ZeroOp::Std));
+                    cs.prog.code.insert(at, z(ZeroOp::Sti));
+                    cs.note.push_str("; IF, DF and CF set beforehand");
+                }
+            }
+        }
         cases.extend(v);
     };
     add("int21_02", int21_02(tier.thorough), &mut cases, &mut groups);
